@@ -220,6 +220,11 @@ def check_case(case) -> Result:
                 out = relative_permeabilities(recs, params)
             except Exception:  # noqa: BLE001 - any error counts as rejection
                 res.nontrivial = True
+                try:  # ... and it must stay rejected when the same input is given again
+                    out = relative_permeabilities(recs, params)
+                except Exception:  # noqa: BLE001
+                    return res
+                res.bad("C14/rejects-invalid", f"input rejected on the first call but accepted on the second ({kind}, params={p})")
                 return res
             what = f"parameter {case.get('bad_field')}={p.get(case.get('bad_field'))!r}" if kind == "invalid-param" else "saturation record not summing to 1"
             res.bad("C14/rejects-invalid", f"{what} accepted; returned {np.asarray(out)[:2]}")
